@@ -98,6 +98,30 @@ func cmdCheck(args []string) int {
 			}
 		}
 	}
+	// lemmas used by selected lemmas are proved in the same check
+	for changed := true; changed; {
+		changed = false
+		for _, lm := range lemmas {
+			for _, st := range lm.Steps {
+				if st.Kind == "use" {
+					ul := cc.cs.LemmaByName(st.Callee)
+					if ul == nil {
+						fatalf("lemma %s uses unknown lemma %s", lm.Name, st.Callee)
+					}
+					have := false
+					for _, x := range lemmas {
+						if x == ul {
+							have = true
+						}
+					}
+					if !have {
+						lemmas = append(lemmas, ul)
+						changed = true
+					}
+				}
+			}
+		}
+	}
 	frames := frameChecksFor(*prop)
 	for _, f := range frames {
 		for _, p := range f.Packages {
@@ -156,6 +180,9 @@ func cmdCheck(args []string) int {
 	genS := time.Since(start).Seconds() - loadS
 	// a lemma may only rely on contracts that this same check proves against their bodies
 	for k := range lemmaUses {
+		if strings.HasPrefix(k, "lemma:") {
+			continue
+		}
 		found := false
 		for _, s := range sel {
 			if s == k {
